@@ -7,8 +7,9 @@
     weight of the LAST connection of a (source,target) pair; the reverse list keeps every occurrence).
   * `FState` = mutable arrays (`neuronSignals`, `neuronSignalsBeingProcessed`, `activated`, `inActivation`,
     `lastActivation`).
-  * NOT modelled: modules (`FastControlNode`); the translation is for `ctrl = []`, so `modules` is empty and the
-    module loop of `forwardStep` and the module guard of `RecursiveSteps` do nothing.
+  * modules (`FastControlNode`) are NOT in this file: it is the model for `ctrl = []` / `modules = []` (the module
+    loop of `forwardStep` and the module guard of `RecursiveSteps` do nothing); the modular model is
+    Model/FastSolverMod.lean, which coincides with this one for `modules = []` (Proofs/FastModFlush.lean, `*_refine`).
   * On an activation error Go stores `-Inf` (first return value of `ActivateByType`) into the array cell it was
     assigning; the model does the same with `negInf`.
 -/
